@@ -1,0 +1,41 @@
+// Package ascii has case folding the way SQLite folds identifiers, keywords
+// and collation names: only the ASCII letters A-Z / a-z have a case.
+package ascii
+
+// Lower gives s with A-Z replaced by a-z.
+func Lower(s string) string {
+	for i := 0; i < len(s); i++ {
+		if c := s[i]; c >= 'A' && c <= 'Z' {
+			b := []byte(s)
+			for ; i < len(b); i++ {
+				if b[i] >= 'A' && b[i] <= 'Z' {
+					b[i] += 'a' - 'A'
+				}
+			}
+			return string(b)
+		}
+	}
+	return s
+}
+
+// Upper gives s with a-z replaced by A-Z.
+func Upper(s string) string {
+	for i := 0; i < len(s); i++ {
+		if c := s[i]; c >= 'a' && c <= 'z' {
+			b := []byte(s)
+			for ; i < len(b); i++ {
+				if b[i] >= 'a' && b[i] <= 'z' {
+					b[i] -= 'a' - 'A'
+				}
+			}
+			return string(b)
+		}
+	}
+	return s
+}
+
+// EqualFold reports whether a and b are equal when the case of ASCII letters
+// is ignored.
+func EqualFold(a, b string) bool {
+	return Lower(a) == Lower(b)
+}
